@@ -90,6 +90,19 @@ Theorem C20_post_action_without_field_parameter : forall t params,
 Proof. intros t params. exact (field_param_none t params 0). Qed.
 Print Assumptions C20_post_action_without_field_parameter.
 
+(* ... and that is the parameter the struct builder uses: a post-action that is taken up is recorded
+   with the address-of flag of that parameter; with no such parameter the builder refuses. *)
+Theorem C20_post_action_uses_field_parameter : forall path ft a st st',
+  fs_hard st = false -> handle_action path ft a st = Some st' ->
+  exists k ptr, field_param (type_code ft) (a_params a) 0 = Some (k, ptr) /\
+                fs_acts st' = fs_acts st ++ [(a_id a, path, ptr)].
+Proof.
+  intros path ft a st st' Hh H. unfold handle_action in H. rewrite Hh in H.
+  destruct (field_param (type_code ft) (a_params a) 0) as [[k ptr]|]; [|discriminate].
+  inversion H; subst. exists k, ptr. split; reflexivity.
+Qed.
+Print Assumptions C20_post_action_uses_field_parameter.
+
 Example C20_field_parameter_nonvacuous :
   (* func(x T1, f *T0, g T0): the pointer parameter is the field, the later T0 comes from the chain *)
   field_param 0 [(1, false); (0, true); (0, false)] 0 = Some (1, true).
